@@ -59,6 +59,7 @@ static void execute(const Exec &e, const vo::Fail &fail, Result *res = nullptr)
     vc::Oracle o;
     o.dev = e.dev;
     o.horizon = 200000;
+    o.salt = vpl::streamSalt(pl);
     vc::Install inst(o);
     std::vector<ob::ProblemDefinitionPtr> pdefs{P->pdef};  // keep alive until teardown
     ob::ProblemDefinitionPtr cur = P->pdef;
